@@ -140,6 +140,31 @@ pub fn drive_c19(out: &mut dyn std::io::Write, seed: u64, thorough: bool) {
         for _ in 0..(if thorough { 300 } else { 5 }) {
             v.push((rng.bytes(n), rng.bytes(n)));
         }
+        // related operands (carry ripple): b = !a (sum all-ones), b = -a at 32 / 64 / 128-bit granularity (sum zero, the carry
+        // runs through the whole word), small + negative small, a = b
+        for &w in [4usize, 8, 16].iter() {
+            let a = rng.bytes(n);
+            let mut b = vec![];
+            for ch in a.chunks(w) {
+                let mut x = 0u128;
+                for (i, &by) in ch.iter().enumerate() {
+                    x |= (by as u128) << (8 * i);
+                }
+                let neg = if w == 16 { x.wrapping_neg() } else { ((1u128 << (8 * w)) - x) & ((1u128 << (8 * w)) - 1) };
+                b.extend_from_slice(&neg.to_le_bytes()[..w]);
+            }
+            v.push((a, b));
+        }
+        let a = rng.bytes(n);
+        v.push((a.clone(), a.iter().map(|x| !x).collect()));
+        v.push((a.clone(), a));
+        let mut small = vec![0u8; n];
+        let mut negsmall = vec![0xffu8; n];
+        for i in (0..n).step_by(16) {
+            small[i] = 10;
+            negsmall[i] = 0xfa; // -6 as a 128-bit number (also -6 in the low 32 / 64-bit word, all-ones elsewhere)
+        }
+        v.push((small, negsmall));
         v
     };
     let o16 = mk(&mut rng, 16);
